@@ -6,6 +6,12 @@ TECH = 'bounded symbolic execution of the real go/ssa (and clang LLVM-IR) of /re
 CHECKS = {
  'C05': dict(design='6.5', text='Bounded symbolic model checking of the BLS decoders through the cgo boundary: the Go wrappers (go/ssa) and the repository C glue (clang LLVM-IR: E1/E2/Fp/Fp2/Fr read and write) are executed on fully symbolic byte strings of the exact lengths and on every other length in the bound; z3 decides that acceptance implies re-encoding to exactly the input, that the accepted private scalars are exactly [1, r-1] (schoolbook reference), the rejection class, and the identity flag.',
              note='Trusted: BLST field primitives as contracts (exact add/sub/neg/compare; uninterpreted Montgomery product, square root, sign with field axioms), subgroup check as an uninterpreted predicate, clang -O0 IR standing for the gcc build (counterexamples are replayed on the real build). ECDSA decoders and the G2 coefficient order versus the cited format are not covered yet.'),
+ 'C07': dict(design='6.7', text='Relational bounded symbolic model checking of one Feldman-VSS-Qual dealer instance run as a product of two honest participants (real go/ssa, curve operations uninterpreted): for every combination of a Byzantine dealer vector kind, per-participant share kinds, delivery orders and complaint answers from a message grammar, z3 decides that both participants return the same verdict class, the same group key and public-share vector, and that no honest participant is flagged or disqualified.',
+             note='Scope smaller than the property: n=4, t=1, one dealer instance (Joint-Feldman = n such instances plus a linear sum, not run as a product), grammar of message kinds rather than all byte strings, share/vector algebra uninterpreted with honest-dealing axioms, network assumptions encoded by the harness.'),
+ 'C08': dict(design='6.8', text='Bounded symbolic model checking of the real DKG handlers (plain Feldman VSS and Feldman-VSS-Qual, participant and dealer roles) over a message grammar with symbolic contents: complaint built at most once, only the Byzantine dealer is ever flagged/disqualified, the dealer answers each first complaint exactly once, every documented disqualification cause leads to a DKG-failure at End, plain VSS returns keys only for a valid vector with a matching share, in both delivery orders and with duplicates; panics are violations.',
+             note='n in {3,4}, t in {1,2}; kinds of malformed/inconsistent messages enumerated, contents symbolic; parse/check verdicts are uninterpreted functions constrained by honest-dealing axioms (listed in evidence); BLST and the polynomial algebra are outside.'),
+ 'C10': dict(design='6.10', text='Bounded symbolic model checking of the seven API methods of the three DKG protocols from every automaton state (reached by real calls), both roles, with symbolic indices and message bytes: the returned error class equals the documented automaton, rejected calls leave every field and the callback log unchanged, Running() follows the automaton, End leaves the instance not running; constructors accept exactly the documented ranges (symbolic 64-bit arguments).',
+             note='n=3, t=1; histories are represented by the automaton state (the guards read only running/jointRunning and the two timeout flags); restart after End is outside, as in the property.'),
  'C13': dict(design='6.13', text='Bounded symbolic model checking of hash/*.go from the real constructors: for each (fill level, write length) pair and each API sequence the digest bytes produced by the sponge driver, KMAC framing and SHA-2 wrappers are proved equal, for all message/key contents, to references written from FIPS 202 and SP 800-185 over the same uninterpreted permutation / cSHAKE / SHA-2 stream function; left_encode/right_encode for every 64-bit value, bytepad for every length up to the bound.',
              note='Trusted: Keccak-f[1600] (uninterpreted; the amd64 assembly is outside), SHA-2 compression and cSHAKE internals (absorb-stream model), go/ssa + executor. Bounds: lengths as listed in evidence; contents unbounded (symbolic).'),
  'C14': dict(design='6.14', text='Bounded symbolic model checking of random/chacha20.go together with the real buffering code of x/crypto/chacha20: seeds, customizers and buffer contents are symbolic, read-size sequences come from a boundary set, the restore point is a symbolic 64-bit counter. z3 decides that every output byte is the byte of the RFC 8439 stream position it should be, relative to an uninterpreted block function.',
